@@ -108,7 +108,13 @@ public:
 
 		~DisableQueueNotify()
 		{
-			--queue->queueNotifyCounter;
+			{
+				// Change the counter under the mutex that wait() and waitFor() hold while they evaluate
+				// their predicate. Otherwise the counter can be decremented and the notification sent
+				// after a waiter evaluated the predicate but before it blocked, and the wake-up is lost.
+				std::lock_guard<Mutex> queueListLock(queue->queueListMutex);
+				--queue->queueNotifyCounter;
+			}
 
 			if(queue->doCanNotifyQueueAvailable() && ! queue->emptyQueue()) {
 				queue->queueListConditionVariable.notify_one();
